@@ -4,6 +4,7 @@ import (
 	"bytes"
 	"crypto"
 	"fmt"
+	"os"
 	"reflect"
 	"sort"
 	"strings"
@@ -21,7 +22,7 @@ import (
 )
 
 func init() {
-	fw.Register(&fw.Check{ID: "C20", Level: "model_checking", Run: runC20, QuickBudget: 100, ThoroughBudget: 1200})
+	fw.Register(&fw.Check{ID: "C20", Level: "model_checking", Run: runC20, QuickBudget: 240, ThoroughBudget: 1200})
 }
 
 type c20Op struct {
@@ -31,10 +32,20 @@ type c20Op struct {
 }
 
 type c20Sys struct {
-	w    *mcfs.World
-	repo *git.Repository
-	st   *filesystem.Storage
-	info repoInfo
+	w      *mcfs.World
+	repo   *git.Repository
+	st     *filesystem.Storage
+	info   repoInfo
+	frozen bool // coarse-timestamp configuration: go-git's own writes do not move the clock
+}
+
+// adv moves the clock ahead of a worktree edit made by the harness, except in
+// the frozen-clock configuration (everything go-git does then happens within
+// one timestamp granule; only the "new mtime" external rewrites move time).
+func (s *c20Sys) adv(n int64) {
+	if !s.frozen {
+		s.w.AdvanceClock(n)
+	}
 }
 
 func decodeDiskIndex(w *mcfs.World) (*index.Index, error) {
@@ -68,6 +79,14 @@ func indexString(idx *index.Index) string {
 	return ext + "\n" + strings.Join(ls, "\n")
 }
 
+func entryOrder(idx *index.Index) string {
+	var sb strings.Builder
+	for _, e := range idx.Entries {
+		fmt.Fprintf(&sb, "%s#%d ", e.Name, e.Stage)
+	}
+	return sb.String()
+}
+
 // compare returns "" when the cached view equals the decode of the bytes on disk.
 func (s *c20Sys) compare() string {
 	disk, derr := decodeDiskIndex(s.w)
@@ -85,6 +104,10 @@ func (s *c20Sys) compare() string {
 	if a != b {
 		return "Index() differs from the on-disk index: " + diffLines(a, b)
 	}
+	// same entries: they must also come in the order a decode gives them
+	if a, b := entryOrder(disk), entryOrder(view); a != b {
+		return "Index() returns the entries in another order than the on-disk index: " + fmt.Sprintf("[] want %q got %q", a, b)
+	}
 	// also deep-compare caches/extensions
 	d2, v2 := *disk, *view
 	d2.ModTime, v2.ModTime = d2.ModTime, d2.ModTime
@@ -95,7 +118,7 @@ func (s *c20Sys) compare() string {
 	return ""
 }
 
-func c20Ops(info repoInfo) []c20Op {
+func c20Ops(info repoInfo, gitIndex []byte) []c20Op {
 	wt := func(s *c20Sys) *git.Worktree {
 		w, err := s.repo.Worktree()
 		if err != nil {
@@ -121,19 +144,19 @@ func c20Ops(info repoInfo) []c20Op {
 	}
 	return []c20Op{
 		{name: "edit+Add(a)", do: func(s *c20Sys) error {
-			s.w.AdvanceClock(2)
+			s.adv(2)
 			s.w.WriteFile("/wt/a", []byte("edited "+fmt.Sprint(s.w.Clock())+"\n"), false)
 			_, err := wt(s).Add("a")
 			return err
 		}},
 		{name: "new+Add(d/n)", do: func(s *c20Sys) error {
-			s.w.AdvanceClock(2)
+			s.adv(2)
 			s.w.WriteFile("/wt/d/n", []byte("new\n"), false)
 			_, err := wt(s).Add("d/n")
 			return err
 		}},
 		{name: "AddAll", do: func(s *c20Sys) error {
-			s.w.AdvanceClock(2)
+			s.adv(2)
 			s.w.WriteFile("/wt/x", []byte("x changed\n"), true)
 			s.w.RemoveSetup("/wt/d/b")
 			return wt(s).AddWithOptions(&git.AddOptions{All: true})
@@ -178,6 +201,84 @@ func c20Ops(info repoInfo) []c20Op {
 				e.Mode = 0o100644
 			}, true)
 		}},
+		// --- added by the hole review (notes/C20-holes.md) ---
+		{name: "ext:rewrite(smaller size,same mtime)", ext: true, do: func(s *c20Sys) error {
+			return rewrite(s, func(idx *index.Index) {
+				if len(idx.Entries) > 0 {
+					idx.Entries = idx.Entries[:len(idx.Entries)-1]
+				}
+			}, true)
+		}},
+		{name: "ext:rewrite(same size,older mtime)", ext: true, do: func(s *c20Sys) error {
+			// a file restored from a backup / written by a process with an older clock
+			idx, err := decodeDiskIndex(s.w)
+			if err != nil {
+				return nil
+			}
+			old := s.w.Mtime("/wt/.git/index")
+			if len(idx.Entries) > 0 {
+				idx.Entries[0].Hash = plumbing.NewHash(info.c2)
+				idx.Entries[0].Size += 7
+			}
+			s.w.WriteFile("/wt/.git/index", encodeIndex(idx), false)
+			s.w.Touch("/wt/.git/index", old-4)
+			return nil
+		}},
+		{name: "ext:git writes a v4 index with TREE+REUC+EOIE", ext: true, do: func(s *c20Sys) error {
+			s.w.AdvanceClock(3)
+			s.w.WriteFile("/wt/.git/index", append([]byte{}, gitIndex...), false)
+			return nil
+		}},
+		{name: "ext:delete index", ext: true, do: func(s *c20Sys) error {
+			s.w.RemoveSetup("/wt/.git/index")
+			return nil
+		}},
+		{name: "ext:truncate index (undecodable)", ext: true, do: func(s *c20Sys) error {
+			b, ok := s.w.ReadFile("/wt/.git/index")
+			if !ok || len(b) < 40 {
+				return nil
+			}
+			s.w.AdvanceClock(3)
+			s.w.WriteFile("/wt/.git/index", append([]byte{}, b[:len(b)-27]...), false)
+			return nil
+		}},
+		{name: "Storer.SetIndex(idx) then caller keeps editing idx", do: func(s *c20Sys) error {
+			// what a caller of the storer API may do: the value handed to SetIndex stays the
+			// caller's; editing it afterwards (without writing) must not reach later readers
+			idx, err := s.st.Index()
+			if err != nil {
+				return err
+			}
+			if err := s.st.SetIndex(idx); err != nil {
+				return err
+			}
+			if len(idx.Entries) > 0 {
+				idx.Entries[0].Hash = plumbing.NewHash(info.c2)
+				idx.Entries[0].Size += 11
+				idx.Entries = idx.Entries[:len(idx.Entries)-1]
+			}
+			return nil
+		}},
+		{name: "AddGlob(d/*)", do: func(s *c20Sys) error {
+			s.adv(2)
+			s.w.WriteFile("/wt/d/b", []byte("b glob "+fmt.Sprint(s.w.Clock())+"\n"), false)
+			s.w.WriteFile("/wt/d/g", []byte("g\n"), false)
+			return wt(s).AddGlob("d/*")
+		}},
+		{name: "RemoveGlob(d/*)", do: func(s *c20Sys) error { return wt(s).RemoveGlob("d/*") }},
+		{name: "Commit(All)", do: func(s *c20Sys) error {
+			s.adv(2)
+			s.w.WriteFile("/wt/a", []byte("for commit -a "+fmt.Sprint(s.w.Clock())+"\n"), false)
+			s.w.RemoveSetup("/wt/d/b")
+			_, err := wt(s).Commit("all\n", &git.CommitOptions{Author: fixedSig, All: true, AllowEmptyCommits: true})
+			return err
+		}},
+		{name: "Restore(staged,a)", do: func(s *c20Sys) error {
+			return wt(s).Restore(&git.RestoreOptions{Staged: true, Files: []string{"a"}})
+		}},
+		{name: "Reset(merge,c1)", do: func(s *c20Sys) error {
+			return wt(s).Reset(&git.ResetOptions{Mode: git.MergeReset, Commit: plumbing.NewHash(info.c1)})
+		}},
 	}
 }
 
@@ -185,24 +286,19 @@ func runC20(c *fw.Ctx) {
 	depth := c.Pick(2, 3)
 	c.Bound("depth", depth)
 	base, info := twoRepoWorld(c)
-	ops := c20Ops(info)
+	gitIndex := c20GitIndex(c, base)
+	ops := c20Ops(info, gitIndex)
 	var names []string
 	for _, o := range ops {
 		names = append(names, o.name)
 	}
 	c.Bound("ops", names)
-	c.SetRule("one repository instance (its storage keeps the index cache) over mcfs; all sequences up to depth over 11 worktree operations and 3 external rewrites of .git/index (new size+new mtime, same size+new mtime, new size+same mtime); after EVERY step the value of Storer.Index() is compared, field by field and including extensions, with an independent decode of the bytes currently on disk; additionally for every sequence the LAST go-git operation is re-run with each of its filesystem calls failing once (EIO on mutating calls, and on opens of worktree files) and the comparison is repeated after the failed call, once with the cache warmed by a prior Index() and once cold (the failing operation performs the first index read of the instance); distinct = distinct (sequence outcome, index content) pairs")
-	c.Assume("rewrites that change neither size nor mtime are outside the statement; Index.ModTime (in-memory stamp) is excluded from the comparison; mcfs clock ticks per mutating call")
+	c.SetRule("one repository instance (its storage keeps the index cache) over mcfs, in two clock configurations (ticking: every mutating call gets a new timestamp; frozen: all of go-git's writes fall into the timestamp granule the index file already has, so only the size can invalidate the cache after go-git's own writes); all sequences up to depth over 16 worktree operations (Add of an existing/new path, Add(All), AddGlob, Remove, RemoveGlob, Move, Commit, Commit(All), Reset hard/mixed/merge, Restore(staged), sparse and plain Checkout, Status), one direct storer call (SetIndex, after which the caller keeps editing the value it passed) and 8 external rewrites of .git/index (a git-written version-4 index with cached-tree, resolve-undo and end-of-index-entry extensions, new size+new mtime, same size+new mtime, larger/smaller size+same mtime, same size+OLDER mtime, file deleted, file truncated to an undecodable one); after EVERY step the value of Storer.Index() is compared, field by field, in entry order and including extensions, with an independent decode of the bytes currently on disk; additionally for every sequence the LAST go-git operation is re-run with each of its filesystem calls failing once (EIO on mutating calls, on stat/open of worktree files and on stat/open/fstat/read of the index file itself) and the comparison is repeated after the failed call, once with the cache warmed by a prior Index() and once cold (the failing operation performs the first index read of the instance); distinct = distinct (clock configuration, sequence outcome, index content) pairs")
+	c.Assume("rewrites that change neither size nor mtime are outside the statement; Index.ModTime (in-memory stamp) is excluded from the comparison; the mcfs clock ticks per mutating call (ticking configuration) or only when an external rewrite says so (frozen configuration)")
 	seqs := fw.Seqs(len(ops), depth)
+	clocks := []string{"ticking", "frozen"}
+	c.Bound("clock_configurations", clocks)
 	var states, trans atomic.Int64
-	newSys := func() *c20Sys {
-		w := base.Clone()
-		repo, st, err := openRepo(w, "/wt/.git", "/wt")
-		if err != nil {
-			fw.Abort("open: %v", err)
-		}
-		return &c20Sys{w: w, repo: repo, st: st, info: info}
-	}
 	run := func(s *c20Sys, op c20Op) (err error) {
 		defer func() {
 			if r := recover(); r != nil {
@@ -211,10 +307,28 @@ func runC20(c *fw.Ctx) {
 		}()
 		return op.do(s)
 	}
-	c.ParDo(len(seqs), 0, func(i int) {
+	c.ParDo(len(seqs)*len(clocks), 0, func(ci int) {
+		i, frozen := ci/len(clocks), ci%len(clocks) == 1
 		seq := seqs[i]
 		if len(seq) == 0 {
 			return
+		}
+		cfg := ""
+		if frozen {
+			cfg = "[frozen clock] "
+		}
+		newSys := func() *c20Sys {
+			w := base.Clone()
+			if frozen {
+				// every write go-git makes lands in the timestamp granule the index already has
+				w.ClockStep = 0
+				w.Touch("/wt/.git/index", w.Clock())
+			}
+			repo, st, err := openRepo(w, "/wt/.git", "/wt")
+			if err != nil {
+				fw.Abort("open: %v", err)
+			}
+			return &c20Sys{w: w, repo: repo, st: st, info: info, frozen: frozen}
 		}
 		var hist []string
 		for _, k := range seq {
@@ -234,14 +348,14 @@ func runC20(c *fw.Ctx) {
 				if err != nil {
 					res = "error"
 				}
-				c.Fail(fmt.Sprintf("after %s (%s): %s", opKind(ops[k].name), res, c20Norm(d)), fmt.Sprintf("history %v, step %d (%s, returned %v): %s", hist, j, ops[k].name, err, d), map[string]any{"history": hist, "step": j})
+				c.Fail(fmt.Sprintf("%safter %s (%s): %s", cfg, opKind(ops[k].name), res, c20Norm(d)), fmt.Sprintf("%shistory %v, step %d (%s, returned %v): %s", cfg, hist, j, ops[k].name, err, d), map[string]any{"history": hist, "step": j, "frozen_clock": frozen})
 				okUntil = j
 				break
 			}
 		}
 		c.Eval()
 		states.Add(1)
-		c.Class(strings.Join(hist, ";") + "|" + s.w.Hash("/wt/.git/index"))
+		c.Class(cfg + strings.Join(hist, ";") + "|" + s.w.Hash("/wt/.git/index"))
 		if okUntil < len(seq) {
 			return
 		}
@@ -301,13 +415,13 @@ func runC20(c *fw.Ctx) {
 				if err != nil {
 					res = "error"
 				}
-				c.Fail(fmt.Sprintf("after %s with EIO at %s (%s): %s", opKind(last.name), site, res, c20Norm(d)),
-					fmt.Sprintf("history %v, last operation with filesystem call #%d (%s) failing (returned %v): %s", hist, f, site, err, d), map[string]any{"history": hist, "fault_index": f, "site": site})
+				c.Fail(fmt.Sprintf("%safter %s with EIO at %s (%s): %s", cfg, opKind(last.name), site, res, c20Norm(d)),
+					fmt.Sprintf("%shistory %v, last operation with filesystem call #%d (%s) failing (returned %v): %s", cfg, hist, f, site, err, d), map[string]any{"history": hist, "fault_index": f, "site": site, "frozen_clock": frozen})
 			}
-			c.Class(strings.Join(hist, ";") + fmt.Sprintf("|fault%d|", f) + s.w.Hash("/wt/.git/index"))
+			c.Class(cfg + strings.Join(hist, ";") + fmt.Sprintf("|fault%d|", f) + s.w.Hash("/wt/.git/index"))
 		}
 		if i%37 == 0 {
-			c.Sample(map[string]any{"history": hist, "fault_sites_in_last_op": count})
+			c.Sample(map[string]any{"history": hist, "fault_sites_in_last_op": count, "frozen_clock": frozen})
 		}
 	})
 	c.States(int(states.Load()))
@@ -315,9 +429,40 @@ func runC20(c *fw.Ctx) {
 	c.TracesValidated(0)
 }
 
+// c20FaultSite: every mutating call, the stat/open of worktree files ("unreadable
+// file") and every call that reads the index file itself (stat, open, fstat, read):
+// the cache is keyed on the stat of that file and refilled from those reads.
+// c20GitIndex has real git produce, in a dump of the client repository, an index
+// file of version 4 that carries the cached-tree, resolve-undo and
+// end-of-index-entry extensions (a merge conflict resolved with git add).
+func c20GitIndex(c *fw.Ctx, base *mcfs.World) []byte {
+	dir := c.TempDir("c20git")
+	c.Must(base.Dump("/wt", dir), "dump client")
+	g := c.GitHome().In(dir).C("index.recordEndOfIndexEntries=true", "index.version=4", "user.name=V", "user.email=v@example.com")
+	g.MustRun("checkout", "-q", "-b", "side", "b")
+	c.Must(os.WriteFile(dir+"/a", []byte("a on side\n"), 0o644), "write")
+	g.MustRun("commit", "-q", "-a", "-m", "side")
+	g.Run("merge", "-q", "main") // conflicts in a
+	c.Must(os.WriteFile(dir+"/a", []byte("a resolved\n"), 0o644), "write")
+	g.MustRun("add", "a")
+	g.MustRun("write-tree")
+	g.MustRun("update-index", "--index-version", "4", "--force-write")
+	b, err := os.ReadFile(dir + "/.git/index")
+	c.Must(err, "read git index")
+	idx := &index.Index{}
+	c.Must(index.NewDecoder(bytes.NewReader(b), githash.New(crypto.SHA1)).Decode(idx), "decode git index")
+	if idx.Version != 4 || idx.Cache == nil || idx.ResolveUndo == nil || idx.EndOfIndexEntry == nil {
+		fw.Abort("git did not produce the wanted index: v=%d tree=%v reuc=%v eoie=%v", idx.Version, idx.Cache != nil, idx.ResolveUndo != nil, idx.EndOfIndexEntry != nil)
+	}
+	return b
+}
+
 func c20FaultSite(op *mcfs.Op) bool {
 	if op.Mutating {
 		return true
+	}
+	if op.Path == "/wt/.git/index" || strings.HasSuffix(op.Path, "(index)") || strings.HasSuffix(op.Path, "/index)") {
+		return op.Kind == "open" || op.Kind == "stat" || op.Kind == "lstat" || op.Kind == "fstat" || op.Kind == "read"
 	}
 	return (op.Kind == "open" || op.Kind == "stat" || op.Kind == "lstat") && strings.HasPrefix(op.Path, "/wt/") && !strings.HasPrefix(op.Path, "/wt/.git")
 }
